@@ -23,7 +23,8 @@ ASSUMPTIONS = ["MurmurHash3, SipHash-2-4 and SHA256d are arbitrary functions for
 TRUSTED = ["Coq 8.16.1 kernel (coqc)",
            "extraction: ExtrOcamlBasic only; ocaml/conv.ml, merkle_sha256.ml, filter_hashes.ml (OCaml SHA-256, MurmurHash3, SipHash-2-4) and filter_driver.ml glue "
            "(incl. the CPartialMerkleTree wire format)",
-           "tie/drivers/filter_drv.cpp calls the real classes (private fields of the bloom filters are read, and CRollingBloomFilter::nTweak is set, through '#define private public')"]
+           "tie/drivers/filter_drv.cpp calls the real classes (private fields of the bloom filters are read, and CRollingBloomFilter::nTweak is set, through '#define private public'); "
+           "GCS cases run under a watchdog thread (40 s) and a 4 GB address-space limit so that a non-terminating implementation shows up as a failing case"]
 
 
 def sha256d(b):
